@@ -37,7 +37,7 @@ FLOORS = {"quick": {"pipelines": 1500, "elements_checked": 5000, "packets_throug
                        "el_TwoRateTokenBucket": 4000, "el_SP": 2000, "el_WFQ": 2000, "el_VC": 2000, "el_DRR": 2000,
                        "el_RR": 2000, "el_WRR": 2000, "el_FlowDemux": 1000, "el_FIBDemux": 1000,
                        "el_SimplePacketSwitch": 1000, "el_FairPacketSwitch": 1000}}
-KEYS = tuple(FLOORS["quick"].keys()) + ("table_reconfigurations", "stray_flow_cases", "stray_packets_refused")
+KEYS = tuple(FLOORS["quick"].keys()) + ("table_reconfigurations", "stray_flow_cases", "stray_packets_refused", "random_demux_packets")
 # floors for the situations added with the later rounds of seeded changes (evidence that they were really exercised)
 FLOORS["quick"].update({'stray_packets_refused': 400})
 FLOORS["thorough"].update({'stray_packets_refused': 2000})
@@ -538,9 +538,42 @@ def run_stray(case, stats):
     return viol
 
 
+def gen_random_demux(rng):
+    nout = rng.randint(1, 4)
+    scale = rng.choice([1, 1, 0.5, 3, 10, 0.1])          # relative weights: they need not sum to 1
+    w = [rng.choice([1, 2, 3, 5]) for _ in range(nout)]
+    tot = sum(w)
+    return {"kind": "random-demux", "probs": [x / tot * scale for x in w], "n": rng.randint(50, 400), "rseed": rng.randrange(1 << 30)}
+
+
+def run_random_demux(case, stats):
+    from onl.netdev.demux import RandomDemux
+    random.seed(case["rseed"])
+    net = vnet.Net()
+    outs = [net.recorder(f"o{j}") for j in range(len(case["probs"]))]
+    dm = RandomDemux(outs, list(case["probs"]))
+    pkts = [net.make_packet(k % 3, 100, k) for k in range(case["n"])]
+    for p in pkts:
+        dm.put(p)
+    stats["random_demux_packets"] += len(pkts)
+    got = [u for o in outs for (_, u, _) in o.got]
+    want = [net.pk.uid[id(p)] for p in pkts]
+    if sorted(got) != sorted(want):
+        return [("conservation-broken[RandomDemux]", "a RandomDemux (no buffer, no discard rule) did not hand every packet to exactly one output",
+                 {"in": len(want), "out": len(got), "weights": case["probs"]})]
+    if dm.packets_recevied != len(pkts):
+        return [("demux-counter-wrong[RandomDemux]", "the received counter differs from the packets handed in", dm.packets_recevied)]
+    return []
+
+
 def one_case(ctx, case):
     import collections
     stats = collections.Counter({k: 0 for k in KEYS})
+    if case.get("kind") == "random-demux":
+        viol = run_random_demux(case, stats)
+        for k in KEYS:
+            ctx.count(k, stats[k])
+        return viol, True
     if case.get("kind") == "stray":
         viol = run_stray(case, stats)
         for k in KEYS:
@@ -556,7 +589,7 @@ def one_case(ctx, case):
 
 def run_shard(ctx):
     for i in ctx.cases(ncases(ctx.tier)):
-        case = gen_stray(ctx.rng(i)) if i % 30 == 11 else gen_case(ctx.rng(i), i)
+        case = gen_stray(ctx.rng(i)) if i % 30 == 11 else gen_random_demux(ctx.rng(i)) if i % 30 == 23 else gen_case(ctx.rng(i), i)
         viol, nt = one_case(ctx, case)
         for m, what, wit in viol:
             ctx.violation(m, what, wit, case)
